@@ -361,6 +361,8 @@ impl Ctx {
                     TestRunner::new_with_rng(config, TestRng::from_seed(RngAlgorithm::ChaCha, &seed32));
                 let st = std::cell::RefCell::new(Stats::new());
                 let failed = std::cell::Cell::new(false);
+                // the most recent failure seen while running / shrinking (used when the final value does not fail again: schedule-dependent checks)
+                let last_fail: std::cell::RefCell<Option<Fail>> = std::cell::RefCell::new(None);
                 let strategy = strat();
                 let res = runner.run(&strategy, |v| {
                     watchdog_touch();
@@ -381,7 +383,9 @@ impl Ctx {
                         Err(f) => {
                             failed.set(true);
                             stop.store(true, Ordering::Relaxed);
-                            Err(TestCaseError::fail(f.what))
+                            let what = f.what.clone();
+                            *last_fail.borrow_mut() = Some(f);
+                            Err(TestCaseError::fail(what))
                         }
                     }
                 });
@@ -392,7 +396,10 @@ impl Ctx {
                         let mut scratch = Stats::new();
                         let f = match catch(|| test(&v, &mut scratch)).unwrap_or_else(|p| Err(Fail::new(panic_key(&p), p))) {
                             Err(f) => f,
-                            Ok(()) => Fail::new("flaky", "shrunk value no longer fails (non-deterministic check?)"),
+                            Ok(()) => match last_fail.borrow_mut().take() {
+                                Some(f) => Fail::new(f.what, format!("{} [observed while running / shrinking; the saved value did not fail again when re-executed: the failure depends on the thread schedule]", f.detail)),
+                                None => Fail::new("flaky", "shrunk value no longer fails (non-deterministic check?)"),
+                            },
                         };
                         let input = json!({"seed": self.seed, "chunk": c, "value": serde_json::to_value(&v).unwrap_or(Value::Null), "debug": format!("{:?}", v)});
                         st.fail(f, input);
